@@ -193,12 +193,29 @@ func c08ResponseProblem(r c08Request, resp interface{}, tx *configapi.Transactio
 		return fmt.Sprintf("Set answered with %T", resp)
 	}
 	var want, got []string
+	// what the request changed: one entry per (target, path) it names; a path that is both deleted and written in one
+	// request, or named twice, is one pair – marked as the stored change has it
+	named := map[string]bool{}
 	for _, o := range r.Ops {
-		op := "UPDATE"
-		if o.Kind == "delete" {
-			op = "DELETE"
+		named[o.Target+" "+o.Path] = true
+	}
+	if chg := tx.GetChange(); chg != nil {
+		for t, pvs := range chg.Values {
+			for path, pv := range pvs.Values {
+				op := "UPDATE"
+				if pv.Deleted {
+					op = "DELETE"
+				}
+				want = append(want, fmt.Sprintf("%s %s %s", t, path, op))
+				if !named[string(t)+" "+path] {
+					return fmt.Sprintf("the stored change holds %s %s, which the request does not name", t, path)
+				}
+				delete(named, string(t)+" "+path)
+			}
 		}
-		want = append(want, fmt.Sprintf("%s %s %s", o.Target, o.Path, op))
+	}
+	for pair := range named {
+		return fmt.Sprintf("the request names %s, which the stored change does not hold", pair)
 	}
 	for _, u := range sr.Response {
 		got = append(got, fmt.Sprintf("%s %s %s", u.GetPath().GetTarget(), utils.StrPath(u.GetPath()), u.Op))
@@ -263,7 +280,8 @@ func (w *World) c08LastTx() *configapi.Transaction {
 }
 
 func c08Requests() []c08Request {
-	ops := []ReqOp{upd("T1", "/cont/leafA", "x"), del("T1", "/cont/leafA2"), upd("T2", "/cont/leafA", "y"), del("T2", "/cont/leafA2"), {Kind: "replace", Target: "T2", Path: "/cont/sub/leafC", Val: "r"}}
+	// (T1's leafA is both deleted and written, T2's leafA2 is deleted twice: each is one changed pair)
+	ops := []ReqOp{upd("T1", "/cont/leafA", "x"), del("T1", "/cont/leafA"), del("T1", "/cont/leafA2"), upd("T2", "/cont/leafA", "y"), del("T2", "/cont/leafA2"), del("T2", "/cont/leafA2"), {Kind: "replace", Target: "T2", Path: "/cont/sub/leafC", Val: "r"}}
 	return []c08Request{
 		{Name: "asynchronous Set on T1+T2", Ops: ops},
 		{Name: "synchronous Set on T1+T2", Ops: ops, Sync: true},
